@@ -8,6 +8,7 @@ use serde_json::{Value, json};
 
 mod crash;
 mod race;
+mod sched;
 mod space;
 mod trace;
 mod verify;
@@ -17,7 +18,7 @@ use verify::verify_reads;
 use world::*;
 
 fn main() {
-    hcommon::quiet_panics();
+    if std::env::var("VERIF_LOUD").is_err() { hcommon::quiet_panics(); }
     let args: Vec<String> = std::env::args().collect();
     let mut rep = Report::new();
     let rt = tokio::runtime::Builder::new_multi_thread().worker_threads(4).enable_all().build().unwrap();
@@ -27,6 +28,11 @@ fn main() {
         "timing" => rt.block_on(timing_cmd(&mut rep, &args[2])),
         "crash" => rt.block_on(crash::crash_cmd(&mut rep, &args[2])),
         "race" => rt.block_on(race::race_cmd(&mut rep, &args[2])),
+        "midtx" => rt.block_on(sched::midtx_cmd(&mut rep, &args[2])),
+        "sched" => rt.block_on(async {
+            sched::sched_cmd(&mut rep, &args[2]).await;
+            sched::stress_cmd(&mut rep).await;
+        }),
         "space" => rt.block_on(space::space_cmd(&mut rep, &args[2])),
         other => panic!("unknown subcommand {other}"),
     }
